@@ -229,8 +229,10 @@ class StateEngine(object):
         default value for Execution TimeoutSeconds if not explicitly set in
         the ASL. This is used by Task timeouts and also the "back stop"
         check_for_expired_branch_results.
+        The config value may be a number or, when it comes from the
+        STATE_ENGINE_EXECUTION_TTL environment variable, a numeric string.
         """
-        self.execution_ttl = config["state_engine"]["execution_ttl"]
+        self.execution_ttl = int(float(config["state_engine"]["execution_ttl"]))
 
         """
         Holds metadata about Parallel state Branches or Map state Iterations.
